@@ -326,7 +326,12 @@ Qed.
        Without a side condition the statement is FALSE: [holds] uses [o_valid] (a fresh parse of
        the dump has no error element), an observation [agree] never looks at.
        [ListCheckProofs.judged c] (boolean, computed from the case), for a [CView] case inside
-       [value_ok]: [o_valid]; the hypotheses of theorems 5 / 7 ([closed_value], [name_ok], every
+       [value_ok]: [o_valid]; the session makes no reformat request (PReformat =
+       view.reformat_when_finished(): the text written back is then the formatter's, which the
+       model does not contain - for such a session [agree] compares everything but the layout of
+       the edited field, and [holds] judges it exactly as any other session, but the model does
+       not determine the implementation's close outcome and re-read list, so the bridge is not
+       claimed there); the hypotheses of theorems 5 / 7 ([closed_value], [name_ok], every
        operation one of append / remove / replace / snapshot / ref.value / ref.value = x /
        ref.remove() with good values - not append_separator / append_newline / append_comment);
        and [close_ok]: a refused write-back of the model happens only for an emptied list.
